@@ -13,6 +13,13 @@ THEOREMS = [
     "VK.C03_frac_weight",
     "VK.C03_transfer_value_bounds",
     "VK.C03_loss_le_quota",
+    "VK.applyTransfer_fractional_active",
+    "VK.applyTransfers_fractional_active",
+    "VK.active_shrink",
+    "VK.tallies_sum_active",
+    "VK.C03_step_accounting",
+    "VK.C03_total_nonincreasing",
+    "VK.C03_full_transfer_keeps_weights",
 ]
 RULE = ("cases = (a) direct calls of fractional_transfer / random_transfer on ballot lists with duplicates, bullet votes "
         "(exhausting), ballots not led by the winner, ballots listing the winner lower down, 20% with tied lower "
